@@ -775,6 +775,9 @@ func classes(c Case) []string {
 		}
 		if c.Ops[i].K == "X" && hasOddContent(c.Ops[i].Req, c.Ops[i].Res) {
 			cl = appendOnce(cl, "odd-bytes-in-message")
+			if !c.Ops[i].API && oddReachesReport(c.Tree, &c.Ops[i]) {
+				cl = appendOnce(cl, "odd-bytes-in-recorded-failure")
+			}
 		}
 		if c.Ops[i].K == "X" && hasBadQuery(c.Ops[i].Req) {
 			cl = appendOnce(cl, "unparsable-query")
@@ -973,6 +976,25 @@ func oddContent(t *rapid.T, rq *tr.Req, rs *tr.Res, nvals int) {
 			rs.Header[pick(t, "oddname", []string{"X-A", "X-B"})] = []string{tr.OddHeaderValues[uni(t, "oddval", nvals)]}
 		}
 	}
+}
+
+// oddReachesReport: the exchange leaves a header or query-string failure
+// behind (the texts of those quote the message's values).
+func oddReachesReport(tree *tr.Node, op *Op) bool {
+	hit := false
+	in := &tr.Interp{OnVerifier: func(leaf *tr.Node, side tr.Side, rq *tr.Req, rs *tr.Res) {
+		if (leaf.T == tr.HeaderVerifier || leaf.T == tr.QueryVerifier) && tr.VerifierUnmet(leaf, side, rq, rs) {
+			hit = true
+		}
+	}}
+	rq := effReq(op)
+	in.Request(tree, rq)
+	if !op.NoRes {
+		rs := op.Res.Clone()
+		rs.Req = rq
+		in.Response(tree, rs)
+	}
+	return hit
 }
 
 func hasOddContent(rq *tr.Req, rs *tr.Res) bool {
